@@ -23,7 +23,7 @@ COMPONENTS = {"real": ["pyjelly Stream classes, FrameFlow classes, all serialize
               "stub": ["reader: simkit.refdec", "output sink"]}
 ASSUMPTIONS = ["a TripleStream fed quads is judged on the triples (graph names are not part of a triples stream)",
                "rdflib inputs compared as sets"]
-PROBES = ["accepted", "raised", "nondelimited", "explicit_flow"]
+PROBES = ["accepted", "raised", "nondelimited", "explicit_flow", "namespace_runs"]
 SHRINK_LISTS = ["ops"]
 
 GENERIC_ENTRIES = ["frames_gen", "frames_gen", "frames_sink", "flat_file", "flat_frames", "grouped_file"]
@@ -50,7 +50,19 @@ def generate(rng, run, tier):
         cfg["pass_stream"] = rng.random() < 0.6
     if entry == "grouped_file":
         cfg["groups"] = c01.split_groups(rng, len(stmts))
-    return {"cfg": cfg, "ops": [["stmt", *T.to_json(st)] for st in stmts]}
+    ops = [["stmt", *T.to_json(st)] for st in stmts]
+    if rng.random() < 0.25:
+        # namespace declarations travel through the same flow as the statements
+        pools = W.Pools(rng, 3, 3, 1, rdflib_safe=integration == "rdflib")
+        nss = W.gen_namespaces(rng, pools, rng.randint(1, 6), rdflib_safe=integration == "rdflib")
+        need = W.max_needs(stmts, nss, prefix_enabled=cfg["max_prefixes"] > 0, graphs_type=physical == "GRAPHS")
+        if cfg["max_prefixes"]:
+            cfg["max_prefixes"] = max(cfg["max_prefixes"], need[0])
+        cfg["max_names"] = max(cfg["max_names"], need[1])
+        cfg["ns"] = True
+        cfg["ns_all_groups"] = rng.random() < 0.5
+        ops = [["ns", p, i] for p, i in nss] + ops
+    return {"cfg": cfg, "ops": ops}
 
 
 def effective_arity(cfg, stmts):
@@ -78,6 +90,8 @@ def execute(plan, sim):
         sim.count("nondelimited")
     if cfg["flow"]:
         sim.count("explicit_flow")
+    if cfg.get("ns"):
+        sim.count("namespace_runs")
     box = []
     try:
         data = nodes.serialize(cfg, plan["ops"], sim, stream_box=box)
